@@ -405,3 +405,148 @@ Proof.
 Qed.
 
 End GQ.
+
+(* ------------------------------------------------------------------ *)
+(* Part B: the pool class and what window members emit *)
+
+Definition vresp (x : msg) : Prop :=
+  m_type x = MsgRequestVoteResponse \/ m_type x = MsgRequestPreVoteResponse.
+Definition vreq (x : msg) : Prop :=
+  m_type x = MsgRequestVote \/ m_type x = MsgRequestPreVote.
+
+Section Closed.
+
+Variables (ids : list N) (l t : N).
+Hypothesis Ht0 : t <> 0.
+Hypothesis Hl0 : l <> INVALID_ID.
+
+(* the class of every message that is ever in flight in the closed window:
+   - its term is at most t, unless it is a pre-vote request or a granted pre-vote response;
+   - it is a network message, and no transfer message;
+   - a granted (pre-)vote response never comes from a window member;
+   - a (pre-)vote request comes from an outsider and is not a forced (transfer) one;
+   - if it comes from an outsider and is addressed to a window member it is [adv_ok] *)
+Definition PC (x : msg) : Prop :=
+  (m_term x <= t \/ exempt x = true) /\
+  netmsg (m_type x) /\
+  (vresp x -> m_reject x = false -> ~ In (m_from x) (l :: ids)) /\
+  (vreq x -> ~ In (m_from x) (l :: ids) /\ list_eqb (m_context x) CAMPAIGN_TRANSFER = false) /\
+  (~ In (m_from x) (l :: ids) -> In (m_to x) (l :: ids) -> adv_ok ids l t x).
+
+Lemma ptype_netmsg ty : ptype ty -> netmsg ty.
+Proof. intros [E|[E|[E|[E|[E|E]]]]]; rewrite E; repeat split; discriminate. Qed.
+
+Lemma ptype_not_v x : ptype (m_type x) -> ~ vresp x /\ ~ vreq x.
+Proof.
+  intros H. split; intros [E|E]; rewrite E in H;
+    destruct H as [H|[H|[H|[H|[H|H]]]]]; discriminate.
+Qed.
+
+(* a plain message stamped by a window member *)
+Lemma PC_plain self x :
+  In self (l :: ids) -> ptype (m_type x) -> m_from x = self -> m_term x <= t -> PC x.
+Proof.
+  intros Hs Hty Hf Ht. destruct (ptype_not_v x Hty) as [N1 N2].
+  split; [left; exact Ht|]. split; [apply ptype_netmsg; exact Hty|].
+  split; [intros V; contradiction|]. split; [intros V; contradiction|].
+  intros C. exfalso. apply C. rewrite Hf. exact Hs.
+Qed.
+
+Lemma PC_batch1 m e c : PC m -> PC (m <| m_entries := e |> <| m_commit := c |>).
+Proof. intros H. exact H. Qed.
+Lemma PC_batch2 m c : PC m -> PC (m <| m_commit := c |>).
+Proof. intros H. exact H. Qed.
+
+(* a rejection stamped by a window member *)
+Lemma PC_reject self x :
+  In self (l :: ids) -> vresp x -> m_reject x = true -> m_from x = self -> m_term x <= t -> PC x.
+Proof.
+  intros Hs Hv Hr Hf Ht.
+  split; [left; exact Ht|].
+  split; [destruct Hv as [E|E]; rewrite E; repeat split; discriminate|].
+  split; [intros _ C; congruence|].
+  split; [intros [E|E]; destruct Hv as [E'|E']; rewrite E' in E; discriminate|].
+  intros C. exfalso. apply C. rewrite Hf. exact Hs.
+Qed.
+
+Definition memberGQ (self : N) := GQ PC self t.
+
+(* a window member inside its lease that has voted for a window member never grants
+   a (pre-)vote to a pool request *)
+Lemma member_no_grant r m :
+  r_term r = t -> r_check_quorum r = true -> r_leader_id r = l ->
+  r_election_elapsed r < r_election_timeout r ->
+  In (r_vote r) (l :: ids) ->
+  vreq m -> ~ In (m_from m) (l :: ids) -> list_eqb (m_context m) CAMPAIGN_TRANSFER = false ->
+  (m_term m <= t \/ lease_drop r m = false) ->
+  grants r m = Ok true -> False.
+Proof.
+  intros Ht Hcq Hld He Hv Hq Hf Hctx Hterm G.
+  unfold grants in G. ib G utd Hu. injection G as G.
+  apply andb_prop in G. destruct G as [G _]. apply andb_prop in G. destruct G as [Hcv _].
+  apply orb_prop in Hcv. destruct Hcv as [Hcv|Hcv].
+  - apply orb_prop in Hcv. destruct Hcv as [Hcv|Hcv].
+    + apply N.eqb_eq in Hcv. apply Hf. rewrite <- Hcv. exact Hv.
+    + apply andb_prop in Hcv. destruct Hcv as [_ Hcv]. apply N.eqb_eq in Hcv. congruence.
+  - apply andb_prop in Hcv. destruct Hcv as [Hty Hgt]. apply N.ltb_lt in Hgt.
+    destruct Hterm as [Hle|Hnd]; [lia|].
+    unfold lease_drop in Hnd. rewrite Hctx, Hcq, Hld in Hnd.
+    assert (E1 : (l =? INVALID_ID) = false) by (apply N.eqb_neq; exact Hl0).
+    assert (E2 : (r_election_elapsed r <? r_election_timeout r) = true) by (apply N.ltb_lt; exact He).
+    rewrite E1, E2 in Hnd. apply N.eqb_eq in Hty. rewrite Hty in Hnd. discriminate.
+Qed.
+
+(* the prologue and the vote branch of a member's step, for the queue predicate *)
+Lemma member_step_PC r m r' c (self : N) :
+  In self (l :: ids) -> r_id r = self -> r_term r = t -> r_check_quorum r = true ->
+  r_leader_id r = l -> r_election_elapsed r < r_election_timeout r ->
+  In (r_vote r) (l :: ids) ->
+  (m_term m <= t \/ m_type m = MsgRequestPreVote) ->
+  (vreq m -> ~ In (m_from m) (l :: ids) /\ list_eqb (m_context m) CAMPAIGN_TRANSFER = false) ->
+  m_type m <> MsgHup ->
+  (forall rr, r_state r = Leader -> step_leader r m = Ok rr -> memberGQ self r (fst rr)) ->
+  (forall rr, r_state r = Follower -> step_follower r m = Ok rr ->
+              Forall PC (r_msgs r) -> Forall PC (r_msgs (fst rr))) ->
+  r_state r = Leader \/ r_state r = Follower ->
+  step r m = Ok (r', c) -> Forall PC (r_msgs r) -> Forall PC (r_msgs r').
+Proof.
+  intros Hs Hid Ht Hcq Hld He Hv Hterm Hvq Hhup HL HF Hrole H F.
+  assert (Hplain : forall r0 m0 r1, r_id r0 = self -> r_term r0 = t -> send r0 m0 = Ok r1 ->
+            m_from m0 = INVALID_ID -> ptype (m_type m0) -> Forall PC (r_msgs r0) -> Forall PC (r_msgs r1)).
+  { intros r0 m0 r1 I0 T0 S0 F0 P0 Q0.
+    assert (G : GQ PC self t r0 r1).
+    { eapply (send_GQ PC self t); try solve [exact PC_batch1 | exact PC_batch2
+                                             | intros x; apply (PC_plain self x Hs)]; eassumption. }
+    destruct G as [_ G]. apply G; [exact I0|lia|exact Q0]. }
+  assert (Hrej : forall r0 x, r_id r0 = self -> vresp x -> m_reject x = true -> m_from x = self ->
+            m_term x <= t -> Forall PC (r_msgs r0) -> Forall PC (r_msgs (push r0 x))).
+  { intros r0 x I0 V R Fx Tx Q0. unfold push. cbn. apply Forall_app. split; [exact Q0|].
+    constructor; [|constructor]. exact (PC_reject self x Hs V R Fx Tx). }
+  rewrite step_eq in H. ib H pre Hpre. apply step_pre_cases in Hpre.
+  destruct pre as [[r1 c1]|r1].
+  - injection H as <- <-. destruct Hpre as (_ & Hz & [(_ & _ & ->)|(Hlt & Hr)]); [exact F|].
+    unfold low_term_reply in Hr. dtop Hr.
+    + eapply Hplain; [exact Hid|exact Ht|exact Hr|reflexivity|right; right; right; right; left; reflexivity|exact F].
+    + dtop Hr; [|injection Hr as <-; exact F].
+      apply send_vote_resp in Hr; [|reflexivity|right; reflexivity]. destruct Hr as [_ ->].
+      apply (Hrej r); [exact Hid|right; reflexivity|reflexivity|cbn; exact Hid|cbn; lia|exact F].
+  - destruct Hpre as [[-> Hc]|(L & D & E & _)].
+    2:{ exfalso. destruct Hterm as [Q|Q]; [lia|]. unfold exempt in E. rewrite Q in E. discriminate. }
+    unfold step_body in H.
+    destruct (m_type m =? MsgHup) eqn:Ehup; [apply N.eqb_eq in Ehup; contradiction|].
+    destruct ((m_type m =? MsgRequestVote) || (m_type m =? MsgRequestPreVote)) eqn:Ev.
+    { assert (Hq : vreq m) by (apply orb_prop in Ev; destruct Ev as [X|X]; apply N.eqb_eq in X; [left|right]; exact X).
+      assert (Hb : step_body r m = Ok (r', c)) by (unfold step_body; rewrite Ehup, Ev; exact H).
+      destruct (Hvq Hq) as [Hfrom Hctx].
+      apply step_body_vote in Hb; [|exact Hq].
+      destruct Hb as [_ [(G & _ & _)|(_ & _ & ci & _ & Hm)]].
+      - exfalso. eapply member_no_grant; try eassumption.
+        destruct Hc as [Z|[Z|(_ & D & _)]]; [left; lia|left; lia|right; exact D].
+      - assert (Hq' : Forall PC (r_msgs (push r (vote_resp r m (resp_type m) true (r_term r) ci)))).
+        { apply Hrej; [exact Hid| |reflexivity|cbn; exact Hid|cbn; lia|exact F].
+          unfold vresp, resp_type. cbn. destruct (m_type m =? MsgRequestVote); [left|right]; reflexivity. }
+        apply maybe_commit_by_vote_msgs in Hm. rewrite Hm. exact Hq'. }
+    destruct Hrole as [Hr|Hr]; rewrite Hr in H.
+    + destruct (HL (r', c) Hr H) as [_ G]. apply G; [exact Hid|lia|exact F].
+    + exact (HF (r', c) Hr H F).
+Qed.
